@@ -1,6 +1,6 @@
 SPECIFICATION Spec
 CONSTANTS
-  Shapes = {11, 111, 120}
+  Shapes = {11, 111, 120, 34}
   RootFirsts = {0, 1}
   Emit = TRUE
 INVARIANTS StepBound NoDup StackBound EmitCase
